@@ -75,6 +75,20 @@ HEX_PRE = '''
 '''
 
 
+def unescape_hex_scope(spec):
+    """(regex of the obligations that state 'no accepted string has a \\u escape with fewer than four hex digits', regex of everything else)"""
+    ens = spec['ensures']
+    n = [i for i, e in enumerate(ens) if 'g_badhex' in e][0] + 1
+    inv = [i for i, e in enumerate(spec['loops'][0]['invariant']) if 'g_badhex' in e][0] + 1
+    mine = r'(UnEscape.*\.postcondition\.%d$)|(UnEscape.*\.loop_invariant_(base|step)\.%d$)' % (n, inv)
+    return mine, r'^(?!%s).*$' % mine.replace('(UnEscape', '(?:.*UnEscape').replace('(base|step)', '(?:base|step)')
+
+
+def hexall(p, n):
+    """the first n (<= 4) units at p are hex digits"""
+    return ' && '.join('(%s <= %d || QX_ISHEX(%s[%d]))' % (n, k, p, k) for k in range(4))
+
+
 def sfx(c):
     return c
 
@@ -117,44 +131,64 @@ def fn_escape(c):
     return 'JSONUtils_Escape__%s_QV_GStream__%s' % (c, c)
 
 
+# ghost flag: a hex reader stopped before the end of the range it was given (it met a unit that is not a hex digit)
+GH_HEX = [('_Bool', 'g_badhex')]
+# (a nondeterministic _Bool may carry any non-zero byte: compare by truth value, never with ==)
+HEX_FLAG = ['(__CPROVER_old(g_badhex) || (*offset < end_offset)) ==> g_badhex', '!(__CPROVER_old(g_badhex) || (*offset < end_offset)) ==> !g_badhex']
+
+
 # ---- JSONUtils::UnEscape -----------------------------------------------------------------------------
 def unescape_safety_specs(c):
     """memory safety + termination + result shape, all lengths (C05/C07)"""
     q = "((%s)34)" % CHARS[c]
     return {
         fn_unescape(c): dict(
-            buffers=[('content', 'length')], refs=['stream', 'terminated'],
-            requires=['*terminated == 0'],
+            buffers=[('content', 'length')], refs=['stream', 'terminated'], native_both=True,
+            requires=['*terminated == 0', '!g_badhex'],
             ensures=['__CPROVER_return_value <= length',
                      '__CPROVER_return_value != 0 ==> (content[__CPROVER_return_value - 1] == %s || __CPROVER_return_value == length)' % q,
                      # the flag is raised exactly when the scan stopped on the closing quote
                      '*terminated == 0 || *terminated == 1',
                      '*terminated == 1 ==> (__CPROVER_return_value != 0 && content[__CPROVER_return_value - 1] == %s)' % q,
-                     '(__CPROVER_return_value != 0 && __CPROVER_return_value < length) ==> *terminated == 1'],
-            assigns=['*terminated'],
-            loops={0: dict(invariant=['offset <= length', 'offset2 <= offset'], decreases='length - offset', assigns='offset, offset2')}),
+                     '(__CPROVER_return_value != 0 && __CPROVER_return_value < length) ==> *terminated == 1',
+                     # a string is only accepted if every hex reader it started ran over its whole range (four hex digits after each \\u)
+                     '__CPROVER_return_value != 0 ==> !g_badhex'],
+            assigns=['*terminated', 'g_badhex'],
+            loops={0: dict(invariant=['offset <= length', 'offset2 <= offset', '!g_badhex'], decreases='length - offset', assigns='offset, offset2, g_badhex')}),
         fn_write(c): dict(requires=['length == 0 || __CPROVER_r_ok(str, ((__CPROVER_size_t)length) * sizeof(*str))'], assigns=[], ensures=[], stub_body='  ;'),
         fn_append(c): dict(assigns=[], ensures=[], stub_body='  ;'),
         fn_notempty(c): nondet_bool_spec(),
-        fn_hex2(c): dict(requires=['__CPROVER_r_ok(value, ((__CPROVER_size_t)length) * sizeof(*value))'], assigns=[], ensures=[]),
+        fn_hex2(c): dict(requires=['__CPROVER_r_ok(value, ((__CPROVER_size_t)length) * sizeof(*value))', 'length <= 4'], assigns=['g_badhex'],
+                         ensures=['(__CPROVER_old(g_badhex) || !(%s)) ==> g_badhex' % hexall('value', 'length'), '!(__CPROVER_old(g_badhex) || !(%s)) ==> !g_badhex' % hexall('value', 'length')]),
+        fn_hex3(c): dict(requires=['__CPROVER_r_ok(value, ((__CPROVER_size_t)end_offset) * sizeof(*value))', '__CPROVER_w_ok(offset, sizeof(*offset))', '*offset <= end_offset'],
+                         ensures=['*offset >= __CPROVER_old(*offset)', '*offset <= end_offset'] + HEX_FLAG, assigns=['*offset', 'g_badhex'],
+                         ghost_returns=['if (*offset < end_offset) g_badhex = 1']),
         fn_toutf(c): dict(assigns=[], ensures=[]),
     }
 
 
 def hex_safety_specs(c):
+    cons = ['(__CPROVER_old(*offset) == 0 && *offset > %d) ==> QX_ISHEX(value[%d])' % (k, k) for k in range(4)]
     return {
-        fn_hex3(c): dict(buffers=[('value', 'end_offset')], refs=['offset'],
-                         ensures=['*offset >= __CPROVER_old(*offset)', '__CPROVER_old(*offset) <= end_offset ==> *offset <= end_offset'],
-                         assigns=['*offset'],
-                         loops={0: dict(invariant=['*offset >= __CPROVER_loop_entry(*offset)', '__CPROVER_loop_entry(*offset) <= end_offset ==> *offset <= end_offset'],
+        fn_hex3(c): dict(buffers=[('value', 'end_offset')], refs=['offset'], ghost_returns=['if (*offset < end_offset) g_badhex = 1'], native_both=True,
+                         ensures=['*offset >= __CPROVER_old(*offset)', '__CPROVER_old(*offset) <= end_offset ==> *offset <= end_offset',
+                                  # it stops early only at a unit that is not a hex digit, and what it consumed (first four positions) are hex digits
+                                  '*offset < end_offset ==> !QX_ISHEX(value[*offset])'] + cons +
+                                 ['__CPROVER_old(*offset) <= end_offset ==> (%s)' % h for h in HEX_FLAG],
+                         assigns=['*offset', 'g_badhex'],
+                         loops={0: dict(invariant=['*offset >= __CPROVER_loop_entry(*offset)', '__CPROVER_loop_entry(*offset) <= end_offset ==> *offset <= end_offset'] +
+                                                  ['(__CPROVER_loop_entry(*offset) == 0 && *offset > %d) ==> QX_ISHEX(value[%d])' % (k, k) for k in range(4)],
                                         decreases='end_offset - *offset', assigns='*offset, number')}),
     }
 
 
 def hex2_safety_specs(c):
-    return {fn_hex2(c): dict(buffers=[('value', 'length')], ensures=[], assigns=[]),
-            fn_hex3(c): dict(requires=['__CPROVER_r_ok(value, ((__CPROVER_size_t)end_offset) * sizeof(*value))', '__CPROVER_w_ok(offset, sizeof(*offset))'],
-                             ensures=['*offset >= __CPROVER_old(*offset)'], assigns=['*offset'])}
+    cons = ['(*offset > %d) ==> QX_ISHEX(value[%d])' % (k, k) for k in range(4)]
+    return {fn_hex2(c): dict(buffers=[('value', 'length')], requires=['length <= 4'],
+                             ensures=['(__CPROVER_old(g_badhex) || !(%s)) ==> g_badhex' % hexall('value', 'length'), '!(__CPROVER_old(g_badhex) || !(%s)) ==> !g_badhex' % hexall('value', 'length')], assigns=['g_badhex']),
+            fn_hex3(c): dict(requires=['__CPROVER_r_ok(value, ((__CPROVER_size_t)end_offset) * sizeof(*value))', '__CPROVER_w_ok(offset, sizeof(*offset))', '*offset == 0'],
+                             ensures=['*offset >= __CPROVER_old(*offset)', '*offset <= end_offset', '*offset < end_offset ==> !QX_ISHEX(value[*offset])'] + cons + HEX_FLAG,
+                             assigns=['*offset', 'g_badhex'])}
 
 
 # ---- Digit::stringToNumber / parseExponent (memory safety, termination, cursor) --------------------------
